@@ -206,7 +206,10 @@ class Engine:
             stop["boost"] = T.choice([0, 1, 3, 50])
             stop["time"] = T.choice([0.0, 0.01, 0.2, 0.5, 3.0])
         sc["stop"] = stop
+        sc["logger"] = T.draw(4) == 0
         sc["sched"] = gen_sched(T, tier, n)
+        if n > 120:
+            sc["sched"]["p_preempt"] = [0, 1]
         if "pattern" not in sc:
             sc["pattern"] = C.gen_pattern(T, n)
         return sc
@@ -247,8 +250,11 @@ class Engine:
         scfg = dict(sc["sched"])
         nblocks = sc["n"] + 2
         scfg["trace_files"] = _trace_files()
-        scfg["fair_after"] = 30000 + 400 * nblocks
-        scfg["budget"] = 30000 + 400 * nblocks * (len(sc["observers"]) + 2)
+        # bounded liveness: scheduling becomes fair round-robin (and line
+        # pre-emption stops) after fair_after steps; the run must then end
+        # within budget further steps
+        scfg["fair_after"] = 20000 + 50 * nblocks
+        scfg["budget"] = 20000 + 100 * nblocks * (len(sc["observers"]) + 2)
         sim = sched.Sim(S, scfg)
         tmp = C.scratch_dir()
         seams.reset_captures(tmp)
@@ -262,6 +268,19 @@ class Engine:
 
             def _process_message(self, message):
                 self.got.append(message)
+
+        class FakeLogger:
+            def __init__(self):
+                self.lines = []
+
+            def info(self, msg, *a, **k):
+                sim.step("log", None)
+                self.lines.append(str(msg))
+
+            debug = warning = error = info
+
+        logger = FakeLogger() if sc.get("logger") else None
+        lkw = {"logger": logger} if logger is not None else {}
 
         class FakePlayer:
             def __init__(self):
@@ -285,7 +304,7 @@ class Engine:
                                       timeout=o["timeout"])
                 elif kind == "region":
                     t = os.path.join(tmp, tmpls[o["tmpl"]] % k)
-                    w = W.RegionSaverWorker(t, timeout=o["timeout"])
+                    w = W.RegionSaverWorker(t, timeout=o["timeout"], **lkw)
                     w._v_tmpl = t
                 elif kind == "join":
                     fn = os.path.join(tmp, "join%d.%s" % (k, o["fmt"]))
@@ -296,11 +315,11 @@ class Engine:
                     w._v_fn = fn
                 elif kind == "player":
                     fp = FakePlayer()
-                    w = W.PlayerWorker(fp, timeout=o["timeout"])
+                    w = W.PlayerWorker(fp, timeout=o["timeout"], **lkw)
                     w._v_player = fp
                 else:
                     w = W.CommandLineWorker("run {file}",
-                                            timeout=o["timeout"])
+                                            timeout=o["timeout"], **lkw)
                 out.append(w)
             return out
 
@@ -365,7 +384,7 @@ class Engine:
                 saver.start()
                 rd = saver
             res["saver"] = saver
-            tok = W.TokenizerWorker(rd, observers, **kw)
+            tok = W.TokenizerWorker(rd, observers, **lkw, **kw)
             res["tok"] = tok
             if stop is not None:
                 arm_stop()
@@ -478,11 +497,6 @@ class Engine:
         bps = sw * ch
         stop = sc["stop"]
         pfx = prop
-        # ---- termination (C12.3 / C14.1)
-        if failure is not None:
-            kind, detail = failure
-            cl = {"C12": "C12.3", "C13": "C13.4", "C14": "C14.1"}[prop]
-            return V(cl, "%s: %s" % (kind, detail), cl + ":" + kind)
         # ---- escaped exceptions (C12.4 / C14.5)
         for t in sim.threads:
             if t.exc is not None:
@@ -490,6 +504,11 @@ class Engine:
                 return V(cl, "exception escaped %s: %r\n%s" % (
                     t.role, t.exc, (t.exc_tb or "")[-900:]),
                     cl + ":" + type(t.exc).__name__)
+        # ---- termination (C12.3 / C14.1)
+        if failure is not None:
+            kind, detail = failure
+            cl = {"C12": "C12.3", "C13": "C13.4", "C14": "C14.1"}[prop]
+            return V(cl, "%s: %s" % (kind, detail), cl + ":" + kind)
         if not res.get("complete"):
             raise RuntimeError("main did not complete but no failure")
         src = res["src"]
